@@ -55,7 +55,8 @@ func stringify(ty *Type, inProcess util.PtrSet) string {
 		for i, p := range f.Param {
 			xs[i] = stringify(p, inProcess)
 		}
-		pre := "func " + f.Name + "("
+		// 函数名不是类型的一部分 (Equals 不比较), 单态重载的 key 由参数类型渲染而来, 不能依赖名字
+		pre := "func("
 		post := ") " + stringify(f.Return, inProcess)
 		return util.JoinStr(xs, ", ", pre, post)
 	case KMaybe:
